@@ -35,6 +35,62 @@ pub open spec fn has_asset(p: PoolInfo, denom: Seq<char>) -> bool {
 /// C03: constant-product gross output floor(Y*dx/(X+dx))
 pub open spec fn cp_gross(x: nat, y: nat, dx: nat) -> nat { (y * dx) / (x + dx) }
 
+/// gross output of a swap = what the receiver gets + all four fee kinds
+pub open spec fn swap_gross(c: SwapComputation) -> nat {
+    c.return_amount@ + c.swap_fee_amount@ + c.protocol_fee_amount@ + c.burn_fee_amount@ + c.extra_fees_amount@
+}
+/// result of the (unverified, assumed deterministic) stableswap Newton solver
+pub uninterp spec fn ss_y_spec(p: PoolInfo, d: OfferAskDenoms, ask_pool: Decimal256, offer: Decimal256, amp: u64, dir: StableSwapDirection) -> Result<Uint256, ContractError>;
+
+/// 128-bit reserves and offers: the Decimal256 detour in compute_swap cannot overflow
+pub proof fn lemma_cp_gross_fits(x: nat, y: nat, dx: nat)
+    ensures x <= U128_MAX && y <= U128_MAX && dx <= U128_MAX && x + dx > 0 ==>
+        ((y * dx) * DEC) / (x + dx) <= u256_max() && x + dx <= u256_max() && y * dx <= u256_max()
+        && dx * DEC <= u256_max() && y * DEC <= u256_max(),
+{
+    if x <= U128_MAX && y <= U128_MAX && dx <= U128_MAX && x + dx > 0 {
+        assert(y * dx <= U128_MAX * U128_MAX) by (nonlinear_arith) requires y <= U128_MAX, dx <= U128_MAX;
+        assert(dx * DEC <= U128_MAX * DEC) by (nonlinear_arith) requires dx <= U128_MAX;
+        assert(y * DEC <= U128_MAX * DEC) by (nonlinear_arith) requires y <= U128_MAX;
+        assert(U128_MAX * DEC <= u256_max()) by (compute);
+        assert(U128_MAX * U128_MAX <= u256_max()) by (compute);
+        assert(U128_MAX + U128_MAX <= u256_max()) by (compute);
+        // (y*dx*DEC)/(x+dx) <= y*DEC  because y*dx*DEC <= y*DEC*(x+dx)
+        let s = x + dx;
+        assert((y * dx) * DEC <= (y * DEC) * s) by (nonlinear_arith) requires dx <= s;
+        vstd::arithmetic::div_mod::lemma_div_is_ordered(((y * dx) * DEC) as int, ((y * DEC) * s) as int, s as int);
+        vstd::arithmetic::div_mod::lemma_div_multiples_vanish((y * DEC) as int, s as int);
+    }
+}
+
+pub proof fn lemma_pow10_pos(k: nat)
+    ensures nat_pow(10, k) > 0,
+    decreases k,
+{
+    if k > 0 {
+        lemma_pow10_pos((k - 1) as nat);
+        assert(10 * nat_pow(10, (k - 1) as nat) > 0) by (nonlinear_arith) requires nat_pow(10, (k - 1) as nat) > 0;
+    }
+}
+/// converting a reserve to 18-decimals fixed point with precision p <= 18 and back is the identity
+pub proof fn lemma_precision_round_trip(v: nat, p: nat)
+    requires p <= 18,
+    ensures dec_from_atomics(v, p) / nat_pow(10, (18 - p) as nat) == v,
+{
+    lemma_pow10_pos((18 - p) as nat);
+    let d = nat_pow(10, (18 - p) as nat);
+    assert(v * d == d * v) by (nonlinear_arith);
+    vstd::arithmetic::div_mod::lemma_div_multiples_vanish(v as int, d as int);
+}
+pub proof fn lemma_asset_index_unique(p: PoolInfo, denom: Seq<char>, k: int)
+    requires pool_wf(p), 0 <= k < p.assets@.len(), p.assets@[k].denom@ == denom,
+    ensures has_asset(p, denom), asset_index(p, denom) == k,
+{
+    let i = asset_index(p, denom);
+    if i < k { assert(p.assets@[i].denom@ != p.assets@[k].denom@); }
+    if k < i { assert(p.assets@[k].denom@ != p.assets@[i].denom@); }
+}
+
 // (a * D * s / D) == a * s
 pub proof fn lemma_mul_div_cancel(a: nat, s: nat, d: nat)
     requires d > 0,
